@@ -294,6 +294,9 @@ def r7_cancellation(ctx):
 
 
 def run(ctx):
+    from . import C01, C05
+    C01.r8_single_forwarder(ctx)   # one forwarder drains the outbound queue and passes each (id, chunk) on unchanged: per-task FIFO on the wire
+    C05.r7_batching(ctx)           # buffering is switched off on the way to every first data write, so buffered SYNs cannot be stranded
     r1_flush_atomicity(ctx)
     r2_contiguity(ctx)
     r3_open_order(ctx)
